@@ -475,6 +475,80 @@ def run(ctx):
                           "the rate-update loop can skip a group (an iteration reaches the next one without storing a rate): that group keeps a rate "
                           "computed for an older traffic mix while the others are given the whole budget, so sum(volume x rate) exceeds the target "
                           "and a rarer group can be sampled lower than a more frequent one")
+    # ------------------------------------------------------------------ R12.8 what the rate is computed from is fresh too
+    # an f32 field of the group state that feeds the stored rate (the seat count) is written for every group whenever it is written at
+    # all: a path that leaves it as it was (a `nothing to do for this group` shortcut) makes the next rate a function of a stale interval
+    n8 = 0
+    for adt in gs:
+        f32_fields = {f["name"] for v in adt["variants"] for f in v["fields"] if f["ty"] == "f32" and f["name"] != RF}
+        feeding = set()
+        for b in F.all_bodies(W):
+            if "::tests::" in b.path:
+                continue
+            pr_ = None
+            for i in b.live_blocks():
+                for s_ in b.stmts(i):
+                    if s_["k"] == "assign" and any(e[0] == "f" and e[2] == RF and e[3] == adt["def"] for e in s_["lhs"].get("p", [])):
+                        # backward data slice of the stored value (through arithmetic and f32 methods such as min): which fields of the
+                        # group state does it read?
+                        defs = b.defs()
+                        def _ops(rv_):
+                            return {"binop": lambda: [rv_["a"], rv_["b"]], "unop": lambda: [rv_["a"]], "cast": lambda: [rv_["op"]], "use": lambda: [rv_["op"]],
+                                    "agg": lambda: rv_["ops"]}.get(rv_["k"], lambda: [])()
+                        seen_, work_ = set(), list(_ops(s_["rv"]))
+                        while work_:
+                            o_ = work_.pop()
+                            pl = o_.get("copy") or o_.get("move") if isinstance(o_, dict) else None
+                            if pl is None:
+                                continue
+                            for e in pl.get("p", []):
+                                if e[0] == "f" and e[2] in f32_fields and len(e) > 3 and e[3] == adt["def"]:
+                                    feeding.add(e[2])
+                            if pl["l"] in seen_:
+                                continue
+                            seen_.add(pl["l"])
+                            for kind, bb_, j, node in defs.get(pl["l"], []):
+                                if b.is_cleanup(bb_):
+                                    continue
+                                if kind == "call":
+                                    if ((node.get("callee") or {}).get("def") or "").startswith(("core::f32", "std::f32", "core::cmp")):
+                                        work_ += list(node.get("args", []))
+                                elif node["k"] == "assign":
+                                    work_ += _ops(node["rv"])
+                                    if node["rv"]["k"] == "ref":
+                                        work_.append({"copy": node["rv"]["place"]})
+        for sf in sorted(feeding):
+            for b in F.all_bodies(W):
+                if "::tests::" in b.path or b.kind == "Closure" and False:
+                    continue
+                st = [i for i in b.live_blocks() for s_ in b.stmts(i) if s_["k"] == "assign" and any(
+                    e[0] == "f" and e[2] == sf and e[3] == adt["def"] for e in s_["lhs"].get("p", []))]
+                if not st or (b.impl and (b.impl.get("trait") or "").endswith("Default")):
+                    continue
+                n8 += 1
+                per_group = b.arg_count >= 1 and adt["def"] in b.locals[1]["ty"] and all(
+                    s_["lhs"]["l"] == 1 for i in st for s_ in b.stmts(i) if s_["k"] == "assign" and any(e[0] == "f" and e[2] == sf for e in s_["lhs"].get("p", [])))
+                if per_group:
+                    ok8 = b.must_pass(st)
+                else:
+                    # stores inside loops over the groups: no iteration reaches the next one without the store
+                    ok8 = True
+                    for c in b.calls():
+                        if not (c.is_trait_method("Iterator", "next") and c.bb in b.reachable_after(c.bb)):
+                            continue
+                        some_t = None
+                        for sw, tg, oth in switch_on_call_result(b, c):
+                            some_t = tg.get(1)
+                        if some_t is None:
+                            continue
+                        mine = [i for i in st if i in b.reachable(some_t, avoid=[c.bb])]
+                        if mine and some_t not in mine and c.bb in b.reachable(some_t, avoid=mine):
+                            ok8 = False
+                ctx.check(ok8, "R12.8", fnkey(b) + "#%s-rewritten-for-every-group" % sf, loc(b, st[0]),
+                          "`%s` feeds the sampling rate but is not rewritten on every path (a group can keep the value of an older interval): the rate "
+                          "computed for it combines a stale share with the current scale, so sum(volume x rate) can exceed the target" % sf,
+                          "written on every path")
+    ctx.floor("R12.8", "bodies writing a field the rate is computed from", n8, 1)
     # ------------------------------------------------------------------ R12.6 the per-group moving average is updated as a unit
     # a struct embedded in the group state whose fields only make sense together (value + warm-up count): any body that writes one
     # of its fields writes all of them; a partial write (e.g. zeroing the value but keeping the sample count) leaves a state that the
